@@ -585,21 +585,42 @@ pub fn run_cli(args: &[String], stdin: Option<&str>) -> Ran {
             }
         }
     };
-    if let Some(text) = stdin {
+    // Both output pipes are drained by their own threads from the start and stdin is fed by a
+    // third: the program may write a diagnostic larger than a pipe buffer (its parse errors quote
+    // the rest of the file), and would block on it for ever if nobody read while we wait
+    use std::io::Read;
+    let feeder = stdin.map(|text| {
         let mut pipe = child.stdin.take().unwrap();
         let data = text.as_bytes().to_vec();
-        // the program reads everything before it writes, so a plain write cannot deadlock on output
-        let _ = pipe.write_all(&data);
-        drop(pipe);
-    }
+        std::thread::spawn(move || {
+            let _ = pipe.write_all(&data);
+        })
+    });
+    let mut out_pipe = child.stdout.take().unwrap();
+    let mut err_pipe = child.stderr.take().unwrap();
+    let out_reader = std::thread::spawn(move || {
+        let mut buf = Vec::new();
+        let _ = out_pipe.read_to_end(&mut buf);
+        buf
+    });
+    let err_reader = std::thread::spawn(move || {
+        let mut buf = Vec::new();
+        let _ = err_pipe.read_to_end(&mut buf);
+        buf
+    });
     let start = Instant::now();
     let mut timed_out = false;
+    let mut status = None;
     loop {
         match child.try_wait() {
-            Ok(Some(_)) => break,
+            Ok(Some(st)) => {
+                status = Some(st);
+                break;
+            }
             Ok(None) => {
                 if start.elapsed() > Duration::from_secs(60) {
                     let _ = child.kill();
+                    status = child.wait().ok();
                     timed_out = true;
                     break;
                 }
@@ -608,19 +629,16 @@ pub fn run_cli(args: &[String], stdin: Option<&str>) -> Ran {
             Err(_) => break,
         }
     }
-    match child.wait_with_output() {
-        Ok(out) => Ran {
-            code: out.status.code(),
-            stdout: String::from_utf8_lossy(&out.stdout).to_string(),
-            stderr: String::from_utf8_lossy(&out.stderr).to_string(),
-            timed_out,
-        },
-        Err(e) => Ran {
-            code: None,
-            stdout: String::new(),
-            stderr: format!("wait failed: {}", e),
-            timed_out,
-        },
+    if let Some(f) = feeder {
+        let _ = f.join();
+    }
+    let stdout = out_reader.join().unwrap_or_default();
+    let stderr = err_reader.join().unwrap_or_default();
+    Ran {
+        code: status.and_then(|s| s.code()),
+        stdout: String::from_utf8_lossy(&stdout).to_string(),
+        stderr: String::from_utf8_lossy(&stderr).to_string(),
+        timed_out,
     }
 }
 
